@@ -171,7 +171,7 @@ func docNormalize(fn, s string) (string, bool) {
 		if !email || !precisOK(s[:i]) {
 			return "", false
 		}
-		return foldAll(s[:i]) + "@" + strings.ToLower(s[i+1:]), true // domains here are lower-case stable
+		return foldAll(s[:i]) + "@" + foldDomain(s[i+1:]), true // "U-labels form for domain" (idn_test.go)
 	case "precis_casefold":
 		if !precisOK(s) {
 			return "", false
@@ -181,7 +181,7 @@ func docNormalize(fn, s string) (string, bool) {
 		if !email || !precisOK(s[:i]) {
 			return "", false
 		}
-		return foldWidthNFC(s[:i]) + "@" + strings.ToLower(s[i+1:]), true
+		return foldWidthNFC(s[:i]) + "@" + foldDomain(s[i+1:]), true
 	case "precis":
 		if !precisOK(s) {
 			return "", false
